@@ -1174,6 +1174,39 @@ def _fold_struct_objects(tree):
   `struct.unpack(F, b)`, `struct.calcsize(F)`."""
   consts = {}
   holders = [tree] + [c for c in tree.body if isinstance(c, ast.ClassDef)]
+  # `SIZE = struct.calcsize(FORMAT)` next to FORMAT: SIZE reads as the call
+  sizes = {}
+  for h in holders:
+    for st in h.body:
+      if isinstance(st, ast.Assign) and len(st.targets) == 1 and isinstance(
+          st.targets[0], ast.Name) and isinstance(st.value, ast.Call) and \
+          dotted(st.value.func) == 'struct.calcsize' and \
+          len(st.value.args) == 1 and isinstance(st.value.args[0], ast.Name):
+        sizes[st.targets[0].id] = (st, h, st.value.args[0].id)
+  for n in ast.walk(tree):
+    nm = n.id if isinstance(n, ast.Name) and isinstance(
+        n.ctx, (ast.Store, ast.Del)) else (
+            n.attr if isinstance(n, ast.Attribute) and isinstance(
+                n.ctx, (ast.Store, ast.Del)) else None)
+    if nm in sizes and n is not sizes[nm][0].targets[0]:
+      del sizes[nm]
+  if sizes:
+    class _S(ast.NodeTransformer):
+
+      def visit_Attribute(self, n):
+        self.generic_visit(n)
+        if isinstance(n.ctx, ast.Load) and n.attr in sizes and isinstance(
+            sizes[n.attr][1], ast.ClassDef):
+          f = ast.copy_location(ast.Attribute(
+              value=n.value, attr=sizes[n.attr][2], ctx=ast.Load()), n)
+          return ast.copy_location(ast.Call(
+              func=ast.copy_location(ast.Attribute(value=ast.copy_location(
+                  ast.Name(id='struct', ctx=ast.Load()), n), attr='calcsize',
+                                                   ctx=ast.Load()), n),
+              args=[f], keywords=[]), n)
+        return n
+    for st in tree.body:
+      _S().visit(st)
   for h in holders:
     for st in h.body:
       if isinstance(st, ast.Assign) and len(st.targets) == 1 and isinstance(
